@@ -14,6 +14,8 @@ def stepLine (d : DState) (line : String) : DState × String :=
   match tokens line with
   | "H" :: rest => let (h, out) := HistDrv.step d.hist rest; ({ d with hist := h }, out)
   | "S" :: rest => let (h, out) := SessDrv.step d.sess rest; ({ d with sess := h }, out)
+  | "NM" :: rest => (d, NameMap.handle rest)
+  | "CG" :: rest => (d, CandGraph.handle rest)
   | _ => (d, "bad-op")
 
 partial def loop (hin : IO.FS.Stream) (hout : IO.FS.Stream) (d : DState) : IO Unit := do
